@@ -114,8 +114,8 @@ func vpH_C11_hist_roundtrip() {
 // Quick-tier wiring check: both sides of the histogram go through reconciliation, recode of the chunk and
 // recode of the appended histogram; what is read back is what was appended, per bucket index, on each side.
 func vpH_C11_hist_wiring() {
-	aSp, aIdx := vpXLayout("a")
-	bSp, bIdx := vpXLayout("b")
+	aSp, aIdx := vpXLayoutW("a")
+	bSp, bIdx := vpXLayoutW("b")
 	var aAbs, aDeltas, bAbs, bDeltas []int64
 	var prev int64
 	for range aIdx {
@@ -237,8 +237,8 @@ func vpH_C11_hist_wiring() {
 // Float-histogram twin of the wiring check (FloatHistogramChunk, counts 0/1 by case split): both sides of the histogram go through reconciliation, recode of the chunk and
 // recode of the appended histogram; what is read back is what was appended, per bucket index, on each side.
 func vpH_C11_fhist_wiring() {
-	aSp, aIdx := vpXLayout("a")
-	bSp, bIdx := vpXLayout("b")
+	aSp, aIdx := vpXLayoutW("a")
+	bSp, bIdx := vpXLayoutW("b")
 	var aAbs, bAbs []float64
 	for range aIdx {
 		aAbs = append(aAbs, float64(vpShape("count", 0, 1)))
